@@ -47,6 +47,7 @@ def _c16(pid, tier, seed):
 
 
 CHECKS["C16"] = _c16
+CHECKS["C19"] = _c16     # same two legs: API histories + recovered crash images, judged for accounting
 for _p in ("C03", "C04", "C14", "C17"):
     CHECKS[_p] = sync.run_plan
 CHECKS["C15"] = conc.run_c15
